@@ -299,9 +299,9 @@ def model_search(names, tier='quick', deadline_s=240):
     found = {}
     t0 = time.time()
     chk = report.Check('CXX-bounded', tier)
-    # larger views first: two stored trials with symbolic states subsume most behaviours of the smaller views, and the search
-    # has a time budget
-    cfgs = [(2, 0), (2, 1), (1, 0), (1, 1), (0, 0)]
+    # smaller views first (cheap); the search has a time budget (an attempt to try the larger views first made failing trees
+    # much slower without deciding more)
+    cfgs = [(0, 0), (1, 0), (2, 0), (1, 1), (2, 1)]
     for nt, no in cfgs:
         if time.time() - t0 > deadline_s or all(n in found for n in names):
             break
